@@ -37,3 +37,4 @@ TRUSTED = ["util::unix_timestamp stubbed (clock)", "ASSUMED CONTRACT: core::str:
 ASSUMPTIONS = ["WHICH methods are registered for a path (the list handed to Handler::default_options_with by router/base.rs at registration time, through HashMap and leaked closures) is not under contract: "
                "the preflight clause is decided only relative to that list",
                "that the CORS fang wraps 404/error responses of its scope is the fang-scope property C04 (not applicable)"]
+JOBS = 8   # several of these queries need 2-4 GB
